@@ -260,8 +260,30 @@ def rule_census_monotone(ctx):
     r.floor(1)
 
 
+def rule_region_uncounted(ctx, rid="region-uncounted"):
+    """`newlines = auto` counts the input's terminators *outside* disabled regions (C08), and the content of a region must
+    not influence anything outside it (C07): nothing that parse_ignored() can call increments the census."""
+    db = ctx.db
+    r = ctx.rule(rid, "no function reachable from parse_ignored() (the tokenizer while processing is disabled) increments cpd.le_counts")
+    pi = db.fn("parse_ignored", file=TOK)
+    reach = db.reachable_from([pi])
+    r.require(len(reach) >= 3, "parse_ignored calls nothing (%d functions reachable)" % len(reach))
+    n = 0
+    for k in sorted(reach):
+        f = db.funcs[k]
+        if f.file != TOK:
+            continue
+        n += 1
+        r.seen()
+        incs = [x for x in f.nodes.values() if x["k"] == "mem" and x.get("n") == "le_counts"]
+        r.check(not incs, "%s/no-census-in-region" % f.qn, db.loc(f, incs[0] if incs else f.l0),
+                "%s() is reachable from parse_ignored() and touches cpd.le_counts: the terminators inside a disabled region would decide the "
+                "terminator written for the whole file" % f.qn)
+    r.floor(3)
+
+
 def RULES_for(tier):
-    return [rule_single_writer, rule_newline_table, rule_census, rule_census_monotone] + ([rule_cr_lf_symmetry] if tier == "thorough" else [])
+    return [rule_single_writer, rule_newline_table, rule_census, rule_census_monotone, rule_region_uncounted] + ([rule_cr_lf_symmetry] if tier == "thorough" else [])
 
 
-RULES = [rule_single_writer, rule_newline_table, rule_census, rule_census_monotone]
+RULES = [rule_single_writer, rule_newline_table, rule_census, rule_census_monotone, rule_region_uncounted]
